@@ -11,7 +11,8 @@ use serde_json::{json, Map as JMap, Value};
 use std::collections::{BTreeMap, HashMap};
 use yrs::types::text::YChange;
 use yrs::updates::encoder::Encode;
-use yrs::{Any, Array, ArrayRef, GetString, Map, MapRef, Out, ReadTxn, Text, TextRef};
+use yrs::types::xml::{XmlFragment, XmlOut};
+use yrs::{Any, Array, ArrayRef, GetString, Map, MapRef, Out, ReadTxn, Text, TextRef, Xml, XmlElementRef, XmlFragmentRef, XmlTextRef};
 
 pub fn idv(id: Id) -> Value {
     json!([id.0, id.1])
@@ -324,6 +325,9 @@ impl Tags {
                 "any" | "json" | "embed" => {
                     self.by_tag.insert(format!("v:{}", u.val), u.id);
                 }
+                "doc" => {
+                    self.by_tag.insert(format!("d:{}", u.val), u.id);
+                }
                 _ => {}
             }
         }
@@ -379,7 +383,70 @@ fn walk_value<T: ReadTxn>(txn: &T, out: &Out, tags: &Tags, pv: &mut PublicView, 
             walk_map(txn, m, &p, tags, pv, depth);
             id
         }
+        Out::YXmlText(t) => {
+            let (p, id) = branch_prefix(out).unwrap_or(("?".into(), (0, 0)));
+            let tr: &TextRef = t.as_ref();
+            walk_text(txn, tr, &p, tags, pv, depth);
+            walk_xml_attrs(txn, t.attributes(txn).map(|(k, v)| (k.to_string(), v)).collect(), &p, tags, pv, depth);
+            id
+        }
+        Out::YXmlElement(e) => {
+            let (p, id) = branch_prefix(out).unwrap_or(("?".into(), (0, 0)));
+            let f: &XmlFragmentRef = e.as_ref();
+            walk_xml_children(txn, f, &p, tags, pv, depth);
+            walk_xml_attrs(txn, e.attributes(txn).map(|(k, v)| (k.to_string(), v)).collect(), &p, tags, pv, depth);
+            id
+        }
+        Out::YXmlFragment(f) => {
+            let (p, id) = branch_prefix(out).unwrap_or(("?".into(), (0, 0)));
+            walk_xml_children(txn, f, &p, tags, pv, depth);
+            id
+        }
+        Out::YDoc(d) => tags.by_tag.get(&format!("d:{}", d.guid())).copied().unwrap_or((0, 0)),
         other => branch_prefix(other).map(|x| x.1).unwrap_or((0, 0)),
+    }
+}
+
+fn xml_out(x: XmlOut) -> Out {
+    match x {
+        XmlOut::Element(e) => Out::YXmlElement(e),
+        XmlOut::Fragment(f) => Out::YXmlFragment(f),
+        XmlOut::Text(t) => Out::YXmlText(t),
+    }
+}
+
+pub fn walk_xml_children<T: ReadTxn>(txn: &T, f: &XmlFragmentRef, prefix: &str, tags: &Tags, pv: &mut PublicView, depth: usize) {
+    let mut ids = Vec::new();
+    let mut n = 0u32;
+    for c in f.children(txn) {
+        ids.push(walk_value(txn, &xml_out(c), tags, pv, depth + 1));
+        n += 1;
+    }
+    if f.len(txn) != n {
+        pv.disagreements.push(format!("xml {}: len {} != children {}", prefix, f.len(txn), n));
+    }
+    for i in 0..n {
+        match f.get(txn, i) {
+            Some(c) => {
+                let id = branch_prefix(&xml_out(c)).map(|x| x.1).unwrap_or((0, 0));
+                if id != ids[i as usize] {
+                    pv.disagreements.push(format!("xml {}: get({}) != child {}", prefix, i, i));
+                }
+            }
+            None => pv.disagreements.push(format!("xml {}: get({}) is None", prefix, i)),
+        }
+    }
+    if f.get(txn, n).is_some() {
+        pv.disagreements.push(format!("xml {}: get(len) is Some", prefix));
+    }
+    pv.vis.insert(format!("{}|", prefix), ids);
+}
+
+fn walk_xml_attrs<T: ReadTxn>(txn: &T, mut attrs: Vec<(String, Out)>, prefix: &str, tags: &Tags, pv: &mut PublicView, depth: usize) {
+    attrs.sort_by(|a, b| a.0.cmp(&b.0));
+    for (k, v) in attrs {
+        let id = walk_value(txn, &v, tags, pv, depth + 1);
+        pv.vis.insert(format!("{}|{}", prefix, k), vec![id]);
     }
 }
 
@@ -471,6 +538,10 @@ pub fn public<T: ReadTxn>(txn: &T, roots: &[(String, RootKind)], tags: &Tags) ->
                 }
             }
         }
+    }
+    // optional XML fragment root "x" (exists only in behaviours that asked for it)
+    if let Some(x) = txn.get_xml_fragment("x") {
+        walk_xml_children(txn, &x, "x", tags, &mut pv, 0);
     }
     pv
 }
